@@ -307,6 +307,78 @@ let oracles : (string * oracle) list =
   [ "identity", (fun _ -> Obj.magic o_id); "reverse", (fun _ -> Obj.magic o_rev);
     "rotate", (fun _ -> Obj.magic (o_rot (nat_of_int 1))) ]
 
+
+(* ------------------------------------------------------------------ the mutator tie *)
+(* <out>.mut: triples (raw dump before, "mut <accepted> <mutator> <handle> <args>", raw dump after)
+   taken by the history leg around single changes.  For an ACCEPTED change the model-level mutator
+   applied to the dump before must give the dump after (both walked under o_id, i.e. up to the order
+   of the map-like lists); for a REFUSED change the dump after must equal the dump before. *)
+let scalars (r : rnet) : string list =
+  List.concat_map (fun b ->
+      ("bus " ^ ns b.rb_h ^ " name=" ^ implode b.rb_name) ::
+      List.concat_map (fun x ->
+          ("nif " ^ ns x.rn_h ^ " id=" ^ zs x.rn_id ^ " name=" ^ implode x.rn_name) ::
+          List.concat_map (fun m ->
+              (Printf.sprintf "msg %s name=%s id=%s canid=%s static=%b" (ns m.rm_h) (implode m.rm_name) (zs m.rm_id) (zs m.rm_canid) m.rm_static) ::
+              List.map (fun rc -> Printf.sprintf "recv %s of msg %s node-id=%s name=%s" (ns rc.rr_h) (ns m.rm_h) (zs rc.rr_id) (implode rc.rr_name)) m.rm_recv)
+            x.rn_msgs) b.rb_nifs) r.rt_buses
+let rec first_diff a b = match a, b with
+  | x :: a', y :: b' -> if x = y then first_diff a' b' else Printf.sprintf "model: %s / impl: %s" x y
+  | x :: _, [] -> "model: " ^ x ^ " / impl: <none>"
+  | [], y :: _ -> "model: <none> / impl: " ^ y
+  | [], [] -> "a field outside the scalar summary (attributes, signals, descriptions)"
+
+let run_mut path =
+  let ic = open_in path in
+  let all = ref [] in
+  (try while true do all := input_line ic :: !all done with End_of_file -> ());
+  let st = { lines = List.rev !all } in
+  let counts = Hashtbl.create 8 and moved = Hashtbl.create 8 in
+  let bump t k = Hashtbl.replace t k (1 + try Hashtbl.find t k with Not_found -> 0) in
+  let n = ref 0 and bad = ref 0 and end_seen = ref false in
+  let o : oracle = fun _ -> Obj.magic o_id in
+  let idf (r : rnet) = r in
+  let expect_case () = match toks (pop st) with ["case"; _] -> () | _ -> failwith "case expected in the mutator file" in
+  (try
+     while st.lines <> [] do
+       match toks (pop st) with
+       | ["ENDMUT"; k] ->
+         if st.lines <> [] then failwith "text after the ENDMUT marker";
+         if int_of_string k <> !n then failwith (Printf.sprintf "ENDMUT marker says %s triples, %d read" k !n);
+         end_seen := true
+       | "mut" :: acc :: name :: args ->
+         expect_case (); let before = parse_case st in
+         expect_case (); let after = parse_case st in
+         incr n;
+         let accepted = (acc = "1") in
+         let model, mask = match name, args with
+           | "mut_bus_name", [h; nm] -> mut_bus_name (cn h) (cs nm) before, idf
+           | "mut_node_id", [h; i] -> mut_node_id_full (cn h) (cz i) before, mask_node_canids (cn h)
+           | "mut_msg_name", [h; nm] -> mut_msg_name (cn h) (cs nm) before, idf
+           | "mut_msg_id", [h; i; c] -> mut_msg_id (cn h) (cz i) (cz c) before, idf
+           | "mut_msg_static", [h; i] -> mut_msg_static (cn h) (cz i) before, idf
+           | _ -> failwith ("unknown mutator line: " ^ name) in
+         let expected, mask = if accepted then model, mask else before, idf in
+         bump counts (name ^ (if accepted then "" else ":refused"));
+         let we = walk o (mask expected) and wa = walk o (mask after) in
+         if accepted && walk o before <> walk o after then bump moved name;
+         if we <> wa then begin
+           incr bad;
+           if !bad <= 8 then
+             Printf.printf "MUTMISMATCH %s triple %d (%s): %s %s: %s\n" name !n (if accepted then "accepted" else "refused")
+               name (String.concat " " (List.map readable args)) (first_diff (scalars we) (scalars wa))
+         end
+       | t -> failwith ("mut expected: " ^ String.concat " " t)
+     done
+   with Failure m -> Printf.printf "DRIVER-ERROR %s\n" m; incr bad);
+  if not !end_seen then begin Printf.printf "DRIVER-ERROR the mutator file has no ENDMUT marker (truncated?)\n"; incr bad end;
+  Hashtbl.iter (fun k v -> Printf.printf "MUTCMP %s %d\n" k v) counts;
+  Hashtbl.iter (fun k v -> Printf.printf "MUTMOVED %s %d\n" k v) moved;
+  Printf.printf "MUTTRIPLES %d MUTBAD %d\n" !n !bad;
+  exit 0
+
+let () = if Array.length Sys.argv > 2 && Sys.argv.(1) = "--mut" then run_mut Sys.argv.(2)
+
 let () =
   let ic = open_in Sys.argv.(1) in
   let verbose = Array.length Sys.argv > 2 && Sys.argv.(2) = "-v" in
